@@ -261,7 +261,15 @@ pub fn check(c: &Case, obs: &mut Obs) -> Verdict {
                 }
             }
             Outcome::Ok(_) => Verdict::fail(format!("report produced although no rate exists for {missing:?}\n{dsl}")),
-            Outcome::Err(e) => Verdict::fail(format!("needed rate missing ({missing:?}) but the run failed differently: {e}\n{dsl}")),
+            Outcome::Err(e) => {
+                // relabelling amounts can also make a capital return too large for its holding:
+                // with two obstacles in one ledger, which one is reported is not stated
+                if ledger.iter().any(|t| matches!(t.op, crate::led::Op::CapRet { .. })) && e.to_string().to_lowercase().replace(['.', ' '], "").contains("s122") {
+                    obs.class("other_obstacle_reported_instead_of_the_missing_rate");
+                    return Verdict::Pass;
+                }
+                Verdict::fail(format!("needed rate missing ({missing:?}) but the run failed differently: {e}\n{dsl}"))
+            }
             Outcome::Panic(p) => {
                 if p.is_decimal_overflow() {
                     return Verdict::Pass;
